@@ -92,7 +92,13 @@ func runCPK(c CPKCase, rec *h.Rec) error {
 			return h.Failf("C14:CRS:parties-read-different-polynomials", "party %d read other reference polynomials than party 0 after the same %d+1 SampleCRP calls (CKG)", i, len(c.Pre))
 		}
 		shares[i] = protos[i].AllocateShare()
+		var in inputSnap
+		in.snap("secret-key", w.sks[i].Value)
+		in.snap("crp", crps[i].Value)
 		protos[i].GenShare(w.sks[i], crps[i], &shares[i])
+		if err := in.check("CKG", "GenShare", i); err != nil {
+			return err
+		}
 	}
 
 	ops := cpkOps(protos[0])
@@ -114,15 +120,9 @@ func runCPK(c CPKCase, rec *h.Rec) error {
 	// pk0 + s*pk1 = sum of the parties' errors
 	be := int64(c.Params.Xe.AbsBound())
 	rowBound := big.NewInt(int64(n) * be)
-	rqp := *params.RingQP()
-	t := rqp.NewPoly()
-	t.Copy(pk.Value[0])
-	rqp.MulCoeffsMontgomeryThenAdd(pk.Value[1], w.skIdeal.Value, t)
-	rqp.IMForm(t, t)
-	rqp.INTT(t, t)
-	norm := centredNormQP(rqp, t)
-	if norm.Cmp(rowBound) > 0 {
-		return h.Failf("C14:CKG:not-a-key-of-the-ideal-secret", "|pk0 + s*pk1| = 2^%d > n*B = %v", norm.BitLen(), rowBound)
+	norm, err := pkCheck(params, pk, w.skIdeal, rowBound)
+	if err != nil {
+		return h.Failf("C14:CKG:not-a-key-of-the-ideal-secret", "%v", err)
 	}
 	rec.Note("pkNoise", norm.String())
 
